@@ -681,3 +681,8 @@ def run(ctx: Ctx, rep: Report, tier: str) -> None:
     sub15 = Report("C19")
     r15_1(ctx, sub15)
     rep.absorb(sub15, "R19.7")
+
+
+# what the later rounds (seeding rounds 2-5, refactor twins, defect hunt) added to what the check decides
+LATER_ROUNDS = "every produced entry is stored on every path, entries not keys, both sides agree, blocks keep identity through the split"
+EXPLANATION = EXPLANATION.replace(" Does not decide", " Later rounds added: " + LATER_ROUNDS + ". Does not decide", 1) if " Does not decide" in EXPLANATION else EXPLANATION + " Later rounds added: " + LATER_ROUNDS + "."
